@@ -286,7 +286,9 @@ def run_anon(c, mods):
 
 
 # ------------------------------------------------------------------ rows and results
-PROCS = {"none": None, "str": str, "neg": operator.neg, "dbl": lambda x: x * 2}
+# "nz" does NOT map None to None (like a TypeDecorator.process_result_value supplying a default)
+PROCS = {"none": None, "str": str, "neg": operator.neg, "dbl": lambda x: x * 2, "nz": lambda x: 77 if x is None else x}
+NONE_OK = ("none", "nz", "str")
 
 
 def make_result(c):
@@ -405,6 +407,19 @@ def run_row(c, mods):
         etok = e if isinstance(e, str) and e.startswith("E:") else canon(e)
         if tok != etok:
             bad(n, "op %s on row %s -> %s expected %s" % (op, exp, tok, etok))
+    # independence of the Row from the raw row it was built from: the raw row is not modified, and
+    # modifying a (list) raw row afterwards is not visible through the Row
+    try:
+        if [list(x) for x in rows] != [list(x) for x in c["rows"]]:
+            bad("input", "raw row modified: %r -> %r" % (c["rows"], rows))
+        elif isinstance(rows[0], list):
+            rows[0].append(5)
+            rows[0][0] = 123
+            rows[0].reverse()
+            if tuple(row) != exp or len(row) != len(exp):
+                bad("aliasing", "Row changed to %r when the raw list row was modified afterwards" % (tuple(row),))
+    except Exception as ex:  # noqa: BLE001
+        bad("aliasing", exc_tok(ex))
     r = {"out": " ".join(outs), "fail": fail}
     req = row_request(c)
     if req:
@@ -412,10 +427,103 @@ def run_row(c, mods):
     return r
 
 
+# every way one raw row reaches the caller: (name, view, function of a fresh 1-row result)
+AP_PATHS = [
+    ("one", "t", lambda r, k: r.one()),
+    ("first", "t", lambda r, k: r.first()),
+    ("fetchone", "t", lambda r, k: r.fetchone()),
+    ("fetchmany", "t", lambda r, k: r.fetchmany(1)[0]),
+    ("all", "t", lambda r, k: r.all()[0]),
+    ("iter", "t", lambda r, k: next(iter(r))),
+    ("partitions", "t", lambda r, k: next(r.partitions(1))[0]),
+    ("yield_per", "t", lambda r, k: r.yield_per(1).fetchmany()[0]),
+    ("unique", "t", lambda r, k: r.unique().all()[0]),
+    ("unique-one", "t", lambda r, k: r.unique().one()),
+    ("columns", "t", lambda r, k: r.columns(*range(k)).one()),
+    ("tuples", "t", lambda r, k: r.tuples().one()),
+    ("freeze", "t", lambda r, k: r.freeze()().one()),
+    ("scalars", "s", lambda r, k: r.scalars(k - 1).one()),
+    ("scalars-all", "s", lambda r, k: r.scalars(k - 1).all()[0]),
+    ("scalar", "s0", lambda r, k: r.scalar()),
+    ("scalar_one", "s0", lambda r, k: r.scalar_one()),
+    # the ORM loading path (interim rows): plain processed tuples (or Rows), never the raw sequence
+    ("raw_all_tuples", "T", lambda r, k: r._raw_all_tuples()[0]),
+    ("mappings", "m", lambda r, k: dict(r.mappings().one())),
+    ("mappings-all", "m", lambda r, k: dict(r.mappings().all()[0])),
+    ("mappings-unique", "m", lambda r, k: dict(r.mappings().unique().all()[0])),
+]
+
+
+def run_applyprocs(c, mods):
+    """one raw row (NULLs allowed) x one processors tuple (incl. a processor that does not map NULL
+    to NULL) delivered through every fetch path, and through a directly constructed Row"""
+    from sqlalchemy.engine.row import Row
+
+    nk = len(c["keys"])
+    exp = apply_procs(c, c["row"])
+    outs, views, fail = [], [], None
+
+    def note(name, view, g):
+        nonlocal fail
+        if view == "T":
+            view = "t"
+            if not isinstance(g, (tuple, Row)) and fail is None:
+                fail = ["apply-processors-%s-not-a-tuple" % name, "interim row is a %s" % type(g).__name__]
+            if isinstance(g, list):
+                g = "<list>"
+        if view == "t":
+            e = exp
+            g = tuple(g) if isinstance(g, (tuple, Row)) else g
+        elif view == "m":
+            e = dict(zip(c["keys"], exp))
+        elif view == "s0":
+            e = exp[0]
+        else:
+            e = exp[nk - 1]
+        views.append("s%d" % (nk - 1) if view == "s" else view)
+        outs.append(canon(g))
+        if canon(g) != canon(e) and fail is None:
+            fail = ["apply-processors-%s-differs-from-reference" % name, "procs %s raw row %s via %s -> %s expected %s" % (c["procs"], c["row"], name, canon(g), canon(e))]
+
+    for name, view, f in AP_PATHS:
+        res, rows = make_result(dict(c, rows=[c["row"]]))
+        if name == "raw_all_tuples" and not hasattr(res, "_raw_all_tuples"):
+            continue
+        try:
+            g = f(res, nk)
+        except Exception as ex:  # noqa: BLE001
+            g = exc_tok(ex)
+        note(name, view, g)
+        if [list(x) for x in rows] != [list(c["row"])] and fail is None:
+            fail = ["apply-processors-%s-modifies-raw-row" % name, "%s -> %s" % (c["row"], rows)]
+    res, rows = make_result(dict(c, rows=[c["row"]]))
+    md = res._metadata
+    try:
+        g = Row(md, [PROCS[p] for p in c["procs"]] if c.get("procs") else None, md._key_to_index, rows[0])
+    except Exception as ex:  # noqa: BLE001
+        g = exc_tok(ex)
+    note("direct-row", "t", g)
+    ptok = "N" if not c.get("procs") else ".".join({"none": "n", "neg": "g", "dbl": "d", "nz": "z"}[p] for p in c["procs"])
+    req = "cyutil applyprocs %s %s %s" % (ptok, ".".join("N" if v is None else str(v) for v in c["row"]) or "-", " ".join(views))
+    return {"out": " ".join(outs), "req": req, "fail": fail}
+
+
+def gen_applyprocs(rng):
+    nk = rng.randint(1, 4)
+    procs = None if rng.random() < 0.15 else [rng.choice(["none", "neg", "dbl", "nz", "nz"]) for _ in range(nk)]
+    row = []
+    for i in range(nk):
+        nullable = procs is None or procs[i] in ("none", "nz")
+        row.append(None if nullable and rng.random() < 0.5 else rng.choice([0, 1, 2, 7, 77, -1]))
+    return {"kind": "applyprocs", "keys": ["c%d" % i for i in range(nk)], "procs": procs, "row": row, "rowtype": rng.choice(["tuple", "list"])}
+
+
 def row_request(c):
     """request line for the Lean M-ROW driver (integer values, none/neg/dbl processors)"""
     procs = c.get("procs")
-    if procs and any(p == "str" for p in procs):
+    if procs and any(p in ("str", "nz") for p in procs):
+        return None
+    if any(v is None for v in c["rows"][0]):
         return None
     ptok = "N" if not procs else ".".join({"none": "n", "neg": "g", "dbl": "d"}[p] for p in procs)
     toks = []
@@ -484,6 +592,7 @@ def run_result(c, mods):
     else:
         res, rows = make_result(c)
         exp_rows = [apply_procs(c, r) for r in rows]
+        raw_rows = rows
     keys = c["keys"]
     flt = c.get("filter", ["none"])
     uniq = c.get("unique", False)
@@ -610,6 +719,8 @@ def run_result(c, mods):
             bad(n, "op %s (filter %s unique %s) -> %s expected %s" % (op, flt, uniq, tok, etok))
         if closed:
             break
+    if c["kind"] != "sqlresult" and [list(x) for x in raw_rows] != [list(x) for x in c["rows"]]:
+        bad("input", "raw rows modified by fetching: %r -> %r" % (c["rows"], raw_rows))
     return {"out": " ".join(outs), "fail": fail}
 
 
@@ -629,6 +740,8 @@ def run_case(c, mods):
         return run_row(c, mods)
     if k in ("result", "sqlresult"):
         return run_result(c, mods)
+    if k == "applyprocs":
+        return run_applyprocs(c, mods)
     raise ValueError(k)
 
 
@@ -680,7 +793,9 @@ def gen_cases(rng, n):
     out = []
     for _ in range(n):
         w = rng.random()
-        if w < 0.22:
+        if w < 0.04:
+            out.append(gen_applyprocs(rng))
+        elif w < 0.22:
             out.append(gen_proc(rng))
         elif w < 0.34:
             out.append({"kind": "distill", "fn": rng.choice(["20", "raw"]), "param": gen_param(rng)})
@@ -701,7 +816,12 @@ def gen_cases(rng, n):
             nk = rng.randint(1, 4)
             keys = ["c%d" % i for i in range(nk)]
             row = [rng.choice([0, 1, 2, 3, 7, -1]) for _ in range(nk)]
-            procs = None if rng.random() < 0.5 else [rng.choice(["none", "none", "str", "neg", "dbl"]) for _ in range(nk)]
+            procs = None if rng.random() < 0.5 else [rng.choice(["none", "none", "str", "neg", "dbl", "nz", "nz"]) for _ in range(nk)]
+            has_none = False
+            for ci in range(nk):
+                if (procs is None or procs[ci] in NONE_OK) and rng.random() < 0.3:
+                    row[ci] = None  # NULL raw value (with "nz": the processor must still be applied)
+                    has_none = True
             ops = []
             for _ in range(rng.randint(2, 8)):
                 o = rng.choice(["len", "iter", "get", "get", "slice", "attr", "attr", "map", "in", "hash", "eq", "cmp", "setattr", "delattr", "pickle", "asdict", "fields", "tuple", "repr", "mapping-items"])
@@ -717,7 +837,7 @@ def gen_cases(rng, n):
                     ops.append(["cmp", [rng.choice([0, 1, 2, 7]) for _ in range(rng.choice([nk, nk, nk - 1, nk + 1]))]])
                 else:
                     ops.append([o])
-            if procs and any(p == "str" for p in procs):
+            if has_none or (procs and any(p == "str" for p in procs)):
                 ops = [o for o in ops if o[0] != "cmp"]
             out.append({"kind": "row", "keys": keys, "rows": [row], "procs": procs, "rowtype": rng.choice(["tuple", "list"]), "ops": ops, "direct": rng.random() < 0.5})
         else:
@@ -726,8 +846,12 @@ def gen_cases(rng, n):
             nrows = rng.choice([0, 1, 2, 3, 4, 5, 6])
             rows = [[rng.randrange(3) for _ in range(nk)] for _ in range(nrows)]
             c = {"kind": "result", "keys": keys, "rows": rows, "rowtype": rng.choice(["tuple", "list"])}
-            if rng.random() < 0.3:
-                c["procs"] = [rng.choice(["none", "neg", "dbl"]) for _ in range(nk)]
+            if rng.random() < 0.4:
+                c["procs"] = [rng.choice(["none", "neg", "dbl", "nz", "nz"]) for _ in range(nk)]
+                for r in rows:
+                    for ci in range(nk):
+                        if c["procs"][ci] in NONE_OK and rng.random() < 0.3:
+                            r[ci] = None
             f = rng.random()
             if f < 0.2:
                 c["filter"] = ["scalars", rng.randrange(nk)]
